@@ -36,6 +36,14 @@ PROPS: Dict[str, Dict[str, Any]] = {
                          "C02_sync_guard", "C02_equals_accept_iff", "C02_equals_type_err", "C02_none"],
             "stream": "core", "opts": {"salt": "c02", "gen": ["streams", "gen_scalar_case"]},
             "quick_n": 8000, "thorough_n": 150000, "fields": ["out", "trace"]},
+    "C18": {"theorems": ["C18_singleton_list_valid", "C18_singleton_list_invalid", "C18_singleton_utuple_valid",
+                         "C18_singleton_utuple_invalid", "C18_singleton_set_valid", "C18_singleton_set_invalid",
+                         "C18_singleton_ntuple_valid", "C18_singleton_ntuple_invalid", "C18_singleton_map_valid",
+                         "C18_singleton_map_invalid", "C18_union_one", "C18_union_iff", "C18_add_predicate",
+                         "C18_forbid_unknown", "C05_maybe_just_valid", "C05_maybe_just_invalid", "C05_lazy",
+                         "C05_user", "C05_optional_inner_valid", "C05_optional_none"],
+            "stream": "core", "opts": {"salt": "c18", "gen": ["streams", "gen_c18_case"], "async_rate": 0.1},
+            "quick_n": 5000, "thorough_n": 100000, "fields": ["out"]},
     "C16": {"theorems": ["C16_decimal", "C16_uuid", "C16_date", "C16_datetime", "C16_tuple", "C16_never",
                          "C16_subclass_rejected", "C16_validator", "C16_compat", "C16_roundtrip"],
             "stream": "core", "opts": {"salt": "c16", "gen": ["streams", "gen_coercion_case"], "special_rate": 0.3},
@@ -51,7 +59,9 @@ PROPS: Dict[str, Dict[str, Any]] = {
                          "recordStep_agree", "unionStep_agree", "mapStep_agree", "ntupleStep_agree", "seqStep_agree",
                          "run_mono", "Run.unique"], "stream": "core", "opts": {"salt": "c06", "async_rate": 0.12},
             "quick_n": 10000, "thorough_n": 300000, "fields": ["out", "trace"]},
-    "C14": {"theorems": [], "stream": "core", "opts": {"salt": "c14", "async_rate": 0.1},
+    "C14": {"theorems": ["C14_root", "C14_list_later_stage", "scalarStep_prov", "seqStep_prov", "ntupleStep_prov",
+                         "mapStep_prov", "recordStep_prov", "unionStep_prov", "maybeStep_prov", "ItemsRun.sound",
+                         "recLoop_to_run", "C05_union_invalid_inv"], "stream": "core", "opts": {"salt": "c14", "async_rate": 0.1},
             "quick_n": 10000, "thorough_n": 300000, "fields": ["out"]},
     "C17": {"theorems": [], "stream": "core", "opts": {"salt": "c17", "async_rate": 0.1, "user_rate": 0.1},
             "quick_n": 8000, "thorough_n": 100000, "fields": ["out"]},
